@@ -4,9 +4,13 @@ import os
 from vt import core
 from vt.main import decide
 from props import c13_common as cm
+from translate import load_tr
 
-IMPORTS = """From TxV Require Import Core.Base Core.Show Model.Proc.
-Open Scope string_scope."""
+IMPORTS = """From TxV Require Import Core.Base Core.Show Model.Proc Gen.SrcLoad.
+Open Scope string_scope.
+Definition show_lev (e : lev) : string :=
+  match e with LResolve _ => "R" | LInit _ => "I" | LProc _ => "P" | LRaise => "X" end.
+Definition show_trace (u : bool) : string := sjoin "" (map show_lev (run_phases load_phases [0%nat] u))."""
 
 CORPUS = os.path.join(core.VERIF, "corpus", "C13")
 
@@ -51,7 +55,7 @@ def classify(case, o):
 
 
 def run(chk):
-    chk.prove([])
+    chk.prove([load_tr.translate])
     n = 900 if chk.thorough else 240
     cases = load_corpus()
     for i in range(n):
@@ -65,9 +69,11 @@ def run(chk):
             res[id(c)] = x
     failures, disagreements = [], []
     evald = [c for c in cases if res[id(c)]["ok"]]
-    vals, errs = core.coq_eval("C13", IMPORTS, [coq_case(c, res[id(c)]) for c in evald])
+    vals, errs = core.coq_eval("C13", IMPORTS, ["show_trace false", "show_trace true"] + [coq_case(c, res[id(c)]) for c in evald])
     if errs:
         disagreements.append({"case": "coq evaluation", "model": errs[:2]})
+    trace_ok, trace_err = vals[0] or "", vals[1] or ""
+    vals = vals[2:]
     mv = {id(c): v for c, v in zip(evald, vals)}
     for c in cases:
         o = res[id(c)]
@@ -90,6 +96,18 @@ def run(chk):
             chk.stat("with references")
         if any(e["id"] == 0 for e in procs):
             chk.stat("abstract-rule processor on a primitive value")
+        # correspondence with the translated phase order: the blocks of events the load produced
+        blocks = []
+        for k in kinds:
+            ch = {"resolve": "R", "init": "I", "proc": "P"}.get(k)
+            if ch and (not blocks or blocks[-1] != ch):
+                blocks.append(ch)
+        if not o["ok"]:
+            blocks.append("X")
+        want = trace_ok if o["ok"] else trace_err
+        it = iter(want)
+        if not all(b in it for b in blocks) or (o["ok"] and ("P" in blocks) != (len(procs) > 0)):
+            disagreements.append({"case": c, "impl": "phases " + "".join(blocks), "model": "phases " + want})
         # correspondence with the Coq model
         if o["ok"]:
             m = mv.get(id(c))
